@@ -153,6 +153,8 @@ Definition pay_eqb (model obs : payload) : bool :=
   match model, obs with
   | PNone, _ => true                      (* nothing predicted: not compared *)
   | PText a, PText b => eqb_bytes a b
+  | PText a, PRetr _ b => eqb_bytes a b      (* a directory: announced size is host dependent *)
+  | PRetr n a, PRetr m b => (n =? m)%Z && eqb_bytes a b
   | PNames a, PNames b => names_eqb a b
   | PNum a, PNum b => (a =? b)%Z
   | _, _ => false
@@ -178,23 +180,32 @@ Definition outside (root : bytes) (fs : hostfs) : hostfs :=
 
 Definition MARK : bytes := [83;69;78;84;73;78;69;76].   (* "SENTINEL" *)
 
-Definition discloses (o : list N * payload) : bool :=
-  match snd o with
-  | PText b => infix_b MARK b
-  | PNames l => existsb (infix_b MARK) l
-  | _ => false
-  end.
-
-(* outside entries whose content could show up in a transfer *)
+(* contents of the files outside the root (the sentinels), before the session *)
 Definition outside_contents (root : bytes) (fs : hostfs) : list bytes :=
   flat_map (fun e => match snd e with NFile (x :: r) => [x :: r] | _ => [] end) (outside root fs).
 
-Definition discloses_fs (root : bytes) (fs : hostfs) (o : list N * payload) : bool :=
+(* Transferred bytes disclose outside content when they hold the sentinel mark or a whole
+   outside file, or when they are a piece (>= 4 bytes) of one: by construction of the
+   sentinels no such piece occurs in anything stored inside the root. *)
+Definition text_discloses (outs : list bytes) (t : bytes) : bool :=
+  infix_b MARK t || existsb (fun c => infix_b c t) outs
+  || ((4 <=? length t)%nat && existsb (fun c => infix_b t c) outs).
+
+(* A size named to the client discloses an outside file when it is that file's size and the
+   size is one no file inside the root can have (500 .. 2999 bytes: see the harness). *)
+Definition size_discloses (outs : list bytes) (n : Z) : bool :=
+  (500 <=? n)%Z && (n <? 3000)%Z && existsb (fun c => (Z.of_nat (length c) =? n)%Z) outs.
+
+Definition discloses (outs : list bytes) (o : list N * payload) : bool :=
   match snd o with
-  | PText b => existsb (fun c => infix_b c b) (outside_contents root fs)
-  | _ => false
+  | PText b => text_discloses outs b
+  | PRetr n b => size_discloses outs n || text_discloses outs b
+  | PNum n => size_discloses outs n
+  | PNames l => existsb (infix_b MARK) l
+  | PNone => false
   end.
 
+(* PWD text is exempt from the piece rule only in that it is judged as a path below *)
 Fixpoint pwd_bad (cs : list cmd) (os : list (list N * payload)) : bool :=
   match cs, os with
   | CPwd :: cs', (_, PText t) :: os' => negb (rooted_clean_b t) || pwd_bad cs' os'
@@ -204,7 +215,7 @@ Fixpoint pwd_bad (cs : list cmd) (os : list (list N * payload)) : bool :=
 
 Definition case_sig (c : case) : N :=
   if negb (fs_eqb (outside (c_root c) (c_fs c)) (outside (c_root c) (c_final c))) then SIG_OUTSIDE_CHANGED
-  else if existsb discloses (c_obs c) || existsb (discloses_fs (c_root c) (c_fs c)) (c_obs c) then SIG_OUTSIDE_DISCLOSED
+  else if existsb (discloses (outside_contents (c_root c) (c_fs c))) (c_obs c) then SIG_OUTSIDE_DISCLOSED
   else if pwd_bad (c_cmds c) (c_obs c) then SIG_CWD_REPORTED
   else if c_escape c then SIG_HOST_ESCAPE
   else 0.
